@@ -36,7 +36,7 @@ ASSUMPTIONS = {
             'bare-string attribute arguments are not generated (project documents list or tuple)'],
 }
 TIERS = {
-    'C02': {'quick': dict(runs=4000, budget_s=150, hashseeds=4, minimise_s=60),
+    'C02': {'quick': dict(runs=32000, budget_s=150, hashseeds=4, minimise_s=60),
             'thorough': dict(runs=None, budget_s=600, hashseeds=16, minimise_s=240)},
 }
 RUN_LIMIT_S = {'C02': 60}
@@ -79,7 +79,7 @@ def gen_case(rnd, prop, tier):
     elim = a_bp.gen_elim(rnd, attrs)
     if isinstance(elim, dict):
         elim = None
-    source = 'estimate' if (cliques and rnd.random() < 0.2 and not big) else 'direct'
+    source = 'estimate' if (cliques and rnd.random() < 0.3 and not big) else 'direct'
     fsmode = rnd.choice(['clean', 'clean', 'clean', 'faulty'])
     ops = []
     for _ in range(rnd.randint(4, 10)):
